@@ -55,9 +55,13 @@ RULE = ("Every endpoint configuration (ephemeral/filesystem x auth none/basic/st
         "interface, mapping and leak verdicts; a resolved port is stopped, started and stopped again. Documented-invalid "
         "option combinations are enumerated separately (constructor, Tor.create_*, system_tor, global_tor, private_tor, "
         "onion: strings with and without controlPort) and must raise ValueError before any listen/connect/spawn/Tor "
-        "launch/state-changing command. Non-trivial = a fault is "
-        "injected, or the history has a FAILED or foreign event and the model decides, or an invalid combination; "
-        "distinct = distinct canonical JSON.")
+        "launch/state-changing command. A third driver runs histories of two or three successive / "
+        "overlapping listen() calls of different endpoints on ONE TorConfig / Tor object and one reactor (same caller-"
+        "supplied key, different keys, Tor-generated keys, filesystem services, mixed; after stop and DEL_ONION, with the "
+        "first still up - Tor answers 550 for a key it is serving -, after a rejected or upload-failed first attempt, "
+        "with held replies so that creating commands queue up), every listen judged by the per-listen oracle. "
+        "Non-trivial = a fault is injected, or the history has a FAILED or foreign event and the model decides, or an "
+        "invalid combination, or >=2 listens of which one is decided; distinct = distinct canonical JSON.")
 ASSUMPTIONS = [
     "loopback = 127.0.0.0/8, ::1 or 'localhost'; every listenTCP call made during listen() must name such an interface, "
     "and the forwarding target must be that interface and the port of a listener that is open at that moment",
@@ -102,7 +106,13 @@ ASSUMPTIONS = [
     "in a real subprocess): their listen() is not driven, but their refusal of invalid combinations is, with "
     "txtorcon.controller.launch replaced by a recorder for the duration of the case (a recorded call = a Tor was "
     "started) and the process-global Tor state of txtorcon.endpoints put back afterwards",
-    "Tor reports version 0.4.8.10 (HS_DESC usable); the config has no pre-existing onion services; listen() is called once per endpoint",
+    "Tor reports version 0.4.8.10 (HS_DESC usable); the config has no onion services other than those earlier listens "
+    "of the same history put there; listen() is called once per endpoint object (the endpoint keeps its listener, local "
+    "port and service in attributes, so concurrent or repeated listen() on ONE object is outside the statement)",
+    "driver 'multi': endpoints of one history use distinct service directories (a second endpoint on a directory the "
+    "config already lists is the known-finding proposal in notes/C17.md, reachable through its witness only); the "
+    "scripted Tor answers an ADD_ONION for an address it is serving with 550, a DEL_ONION frees the address; an HS_DESC "
+    "event for an address is fed to every listen of the history that waits for that address",
 ]
 
 ACTIONS = ("UPLOAD", "UPLOADED", "FAILED")
@@ -1335,7 +1345,480 @@ def refuse_cases():
                 yield {"route": route, "combo": combo, "variant": variant, "n": variant % 3}
 
 
-DRIVERS = {"listen": drive_listen, "refuse": drive_refuse}
+# --------------------------------------------------------------------------- driver: multi (several listens, one config)
+#
+# Case (driver "multi"):
+#   {"route": "ctor" | "tor",            all endpoints share ONE TorConfig (ctor) / ONE txtorcon.Tor (tor), one reactor
+#    "first_port": int,
+#    "eps": [{"fs": bool, "key": null | 0..2 (index of a caller-supplied key, full 'TYPE:blob' form; ephemeral only),
+#             "version": 2 | 3, "port": public port, "dir": int (filesystem: index of the service directory)}, ...],
+#    "script": [["listen", i] | ["reply", "ok" | "reject"] | ["up" | "ok" | "fail", i, d] | ["stop", i] | ["remove", i]]}
+#   listen i   = endpoint i's listen() is called (once per endpoint)
+#   reply      = the scripted Tor answers the creating command that is on the wire (the control protocol keeps one
+#                command in flight, so there is at most one): 250 / for "reject" 5xx.  An ADD_ONION for an address
+#                that is being served gets Tor's "550 Onion address collision" whatever the step says.
+#   up/ok/fail = HS_DESC UPLOAD / UPLOADED / FAILED of listen i's service to directory d
+#   stop i     = stopListening() of the port listen i resolved to;  remove i = its .onion_service.remove() (DEL_ONION)
+# Steps that are impossible at that point are skipped (counted).  After the script every command still held is
+# answered 250 so that queued commands reach the wire.  Every listen is judged on its own: Tor must have been sent a
+# creating command naming *its* loopback listener, it resolves only after that command was accepted and *its*
+# descriptor wait is over, fails iff that command was refused / all its uploads FAILED, and leaves nothing open then.
+
+MULTI_MAX_EPS = 3
+
+
+def _multi_keys(version):
+    if version == 3:
+        return [("ED25519-V3:" + v3_key_blob(i), onionref.service_id(3, i)) for i in range(3)]
+    return [("RSA1024:" + blob, sid) for sid, blob in onionref.RSA_KEYS]
+
+
+class _Listen(object):
+    def __init__(self, i, spec):
+        self.i = i
+        self.spec = spec
+        self.ep = None
+        self.watch = None
+        self.local = None          # (interface, port) this listen bound
+        self.asked = None          # the creating command naming that listener, once seen on the wire
+        self.answered = None       # None | "ok" | "rejected"
+        self.code = None
+        self.sid = None
+        self.model = onionref.UploadModel(False)
+        self.up = set()
+        self.out = set()
+        self.stopped = False
+        self.removed = False
+        self.hsdir = None
+        self.expected_uri = None
+
+
+def drive_multi(case):
+    import txtorcon
+    from txtorcon import endpoints as txep
+    res = Result()
+    route = case["route"]
+    specs = case["eps"][:MULTI_MAX_EPS]
+    tor = onionref.OnionTor()
+    r = RestartableReactor(first_port=case["first_port"])
+    tmp = tempfile.mkdtemp(prefix="c17-")
+    live = set()                   # addresses the scripted Tor is serving
+    fresh = [0]
+    wire_pos = {"add": 0, "set": 0, "del": 0}
+    unanswered = []                # creating commands on the wire without a reply: [(kind, line)]
+    listens = [_Listen(i, s) for i, s in enumerate(specs)]
+    skipped = [0]
+
+    def describe(L):
+        s = L.spec
+        return "[listen %d: %s %s v%d%s port %d]" % (
+            L.i, route, "fs dir%d" % s["dir"] if s["fs"] else "ephemeral", s["version"],
+            "" if s.get("key") is None or s["fs"] else " key%d" % s["key"], s["port"])
+
+    def open_now():
+        return [(lp.interface, lp.port) for lp in r.listeners]
+
+    def scan_wire():
+        """attribute newly written creating commands to the listen whose listener they name"""
+        for ln in tor.del_onion_lines[wire_pos["del"]:]:
+            try:
+                live.discard(onionref.parse_del_onion(ln))
+            except onionref.DecodeError:
+                pass
+        wire_pos["del"] = len(tor.del_onion_lines)
+        new = [("add", ln) for ln in tor.add_onion_lines[wire_pos["add"]:]] + \
+              [("set", ln) for ln in tor.setconf_lines[wire_pos["set"]:]]
+        wire_pos["add"] = len(tor.add_onion_lines)
+        wire_pos["set"] = len(tor.setconf_lines)
+        for kind, ln in new:
+            unanswered.append((kind, ln))
+            if kind == "add":
+                try:
+                    mapping = _mapping_from_add_onion(ln)
+                except onionref.DecodeError as e:
+                    res.bad("creating-command-undecodable", "%r: %s" % (ln, e))
+                    return False
+                cands = [L for L in listens if L.watch is not None and not L.spec["fs"] and L.asked is None and
+                         L.local is not None and mapping == [(L.spec["port"], "%s:%d" % L.local)]]
+                if not cands:
+                    res.bad("wrong-port-mapping", "Tor was told %r (decoded %r), which names no loopback listener of a "
+                            "listen() that is waiting for its service; open: %r, listens: %r" % (
+                                ln, mapping, open_now(), [(L.i, L.spec["port"], L.local) for L in listens if L.watch]))
+                    return False
+                cands[0].asked = ln
+            else:
+                for L in listens:
+                    if not L.spec["fs"] or L.watch is None or L.asked is not None or L.local is None:
+                        continue
+                    try:
+                        mapping = _mapping_from_setconf(ln, L.hsdir)
+                    except wire.ParseError:
+                        continue            # this SETCONF does not name that directory
+                    if mapping == [(L.spec["port"], "%s:%d" % L.local)]:
+                        L.asked = ln
+                    else:
+                        res.bad("wrong-port-mapping", "%s: SETCONF %r maps its directory to %r, its listener is %r" % (
+                            describe(L), ln, mapping, L.local))
+                        return False
+        return True
+
+    def add_onion_answer(ln, forced_reject):
+        try:
+            a = onionref.parse_add_onion(ln)
+        except onionref.DecodeError as e:
+            return wire.err(512, "Bad arguments to ADD_ONION: %s" % e), None, 512
+        key_line = None
+        if a.keytype == "NEW":
+            v = 3 if a.keyblob == "ED25519-V3" else 2
+            fresh[0] += 1
+            sid = onionref.service_id(v, 50 + fresh[0])
+            if "DiscardPK" not in a.flags:
+                key_line = ("ED25519-V3:" + v3_key_blob(50 + fresh[0])) if v == 3 else \
+                    ("RSA1024:" + onionref.RSA_KEYS[fresh[0] % len(onionref.RSA_KEYS)][1])
+        else:
+            v = 3 if a.keytype == "ED25519-V3" else 2
+            table = dict(_multi_keys(v))
+            sid = table.get(a.keytype + ":" + a.keyblob)
+            if sid is None:
+                return wire.err(512, "Failed to decode the key"), None, 512
+        if sid in live:
+            return wire.err(550, "Onion address collision"), None, 550
+        if forced_reject:
+            return wire.err(512, "Invalid VIRTPORT/TARGET"), None, 512
+        live.add(sid)
+        return onionref.add_onion_reply(sid, key_line), sid, None
+
+    def answer(how):
+        kind, ln = unanswered.pop(0)
+        owners = [L for L in listens if L.asked == ln and L.answered is None]
+        if kind == "add":
+            rep, sid, code = add_onion_answer(ln, how == "reject")
+            for L in owners:
+                L.answered = "ok" if sid is not None else "rejected"
+                L.code = code
+                L.sid = sid
+                if sid is not None:
+                    L.expected_uri = sid + ".onion"
+            tor.reply(rep)
+        else:
+            if how == "reject":
+                for L in owners:
+                    L.answered, L.code = "rejected", 513
+                tor.reply(wire.err(513, "Unacceptable option value: Failed to configure rendezvous options"))
+            else:
+                for L in owners:
+                    L.answered = "ok"
+                tor.reply(wire.ok())
+
+    def wanted(L):
+        if L.watch is None:
+            return None
+        if L.answered == "rejected":
+            return "failure"
+        if L.answered == "ok":
+            return L.model.decision
+        return None
+
+    def compare(step_no, step):
+        for L in listens:
+            if L.watch is None:
+                continue
+            want = wanted(L)
+            got = None if L.watch.pending else ("failure" if L.watch.failed else "success")
+            if got == want:
+                continue
+            if got == "success" and L.asked is None:
+                tag = "resolved-without-asking-tor"
+                if L.spec["fs"] and any(M is not L and M.watch is not None and M.hsdir == L.hsdir for M in listens):
+                    # another endpoint of this history already named the same HiddenServiceDir (never generated by
+                    # run(); reachable through the documented witness only - see notes/C17.md, known-finding proposal)
+                    tag = "fs-directory-already-in-config-resolves-without-asking-tor"
+            elif got == "success" and L.answered != "ok":
+                tag = "resolved-before-service-exists"
+            elif got == "success":
+                tag = "resolved-before-descriptor-wait-over"
+            elif got == "failure" and want is None:
+                tag = "failed-without-fault"
+            elif got is None and want == "failure":
+                tag = "fault-did-not-fail-listen"
+            elif got is None:
+                tag = "not-resolved-after-descriptor-upload"
+            else:
+                tag = "wrong-outcome"
+            res.bad(tag, "%s: after step %d %r of %r listen() is %r, expected %s (creating command %r, Tor's answer %s; "
+                    "ADD_ONION lines so far %r)" % (describe(L), step_no, step, case["script"], L.watch.outcome()[:3],
+                                                    want or "pending", L.asked, L.answered, tor.add_onion_lines))
+            return False
+        return True
+
+    try:
+        with LogCapture():
+            # ---- endpoints
+            if route == "ctor":
+                cfg = tor.config()
+                txt = None
+            else:
+                txt = txtorcon.Tor(r, tor.proto)
+                Watch(txt.get_config())
+                tor.pipe.pump()
+            for L in listens:
+                s = L.spec
+                if s["fs"]:
+                    L.hsdir = os.path.join(tmp, "hs%d" % s["dir"])
+                    own = onionref.service_id(s["version"], 200 + s["dir"])
+                    L.sid = own
+                    L.expected_uri = own + ".onion"
+                    tor.fs_hostnames[L.hsdir] = (own + ".onion", s["version"])
+                    if route == "ctor":
+                        L.ep = txep.TCPHiddenServiceEndpoint(r, cfg, s["port"], hidden_service_dir=L.hsdir, version=s["version"])
+                    else:
+                        L.ep = txt.create_filesystem_onion_endpoint(s["port"], L.hsdir, version=s["version"])
+                else:
+                    key = None if s.get("key") is None else _multi_keys(s["version"])[s["key"] % 3][0]
+                    if route == "ctor":
+                        kw = {} if key is None else {"private_key": key}
+                        L.ep = txep.TCPHiddenServiceEndpoint(r, cfg, s["port"], version=s["version"], **kw)
+                    else:
+                        L.ep = txt.create_onion_endpoint(s["port"], private_key=key, version=s["version"])
+            # ---- script
+            ok = True
+            script = [list(x) for x in case["script"]] + [["drain"]]
+            for step_no, step in enumerate(script):
+                t = step[0]
+                if t == "listen":
+                    L = listens[step[1] % len(listens)]
+                    if L.watch is not None:
+                        skipped[0] += 1
+                        continue
+                    before = list(r.listeners)
+                    L.watch = Watch(L.ep.listen(_Proto()), passthrough=True)
+                    tor.pipe.pump()
+                    new = [lp for lp in r.listeners if lp not in before]
+                    if len(new) == 1:
+                        L.local = (new[0].interface, new[0].port)
+                elif t == "reply":
+                    if not unanswered:
+                        skipped[0] += 1
+                        continue
+                    answer(step[1])
+                elif t in ("up", "ok", "fail"):
+                    L = listens[step[1] % len(listens)]
+                    d = step[2]
+                    usable = L.watch is not None and (L.asked is not None if L.spec["fs"] else L.answered == "ok")
+                    if usable and L.spec["fs"] is False and L.sid not in live:
+                        usable = False          # Tor is not serving that address (any more)
+                    if not usable or (t == "up" and d in L.up) or (t != "up" and (d not in L.up or d in L.out)):
+                        skipped[0] += 1
+                        continue
+                    hsd = onionref.hsdir_name(d)
+                    v = L.spec["version"]
+                    if t == "up":
+                        L.up.add(d)
+                        ev = onionref.hs_desc("UPLOAD", L.sid, hsd, descid=onionref.desc_id(v, d),
+                                              extra=("HSDIR_INDEX=" + onionref.desc_id(3, 50 + d)) if v == 3 else None)
+                        act = "UPLOAD"
+                    elif t == "ok":
+                        L.out.add(d)
+                        ev = onionref.hs_desc("UPLOADED", L.sid, hsd)
+                        act = "UPLOADED"
+                    else:
+                        L.out.add(d)
+                        ev = onionref.hs_desc("FAILED", L.sid, hsd, descid=onionref.desc_id(v, d),
+                                              reason=("UPLOAD_REJECTED", "UNEXPECTED")[(d + L.i) % 2])
+                        act = "FAILED"
+                    # the event belongs to every listen that is waiting for this address
+                    for M in listens:
+                        if M.watch is not None and M.sid == L.sid and (M.asked is not None):
+                            M.model.feed(True, act, hsd)
+                    tor.event(ev)
+                elif t == "stop":
+                    L = listens[step[1] % len(listens)]
+                    if L.watch is None or not L.watch.succeeded or L.stopped:
+                        skipped[0] += 1
+                        continue
+                    L.stopped = True
+                    L.watch.result.stopListening()
+                    if L.local in open_now():
+                        res.bad("stoplistening-leaves-listener-open", "%s: %r still open" % (describe(L), L.local))
+                        ok = False
+                        break
+                elif t == "remove":
+                    L = listens[step[1] % len(listens)]
+                    svc = getattr(L.watch.result, "onion_service", None) if (L.watch is not None and L.watch.succeeded) else None
+                    if svc is None or L.spec["fs"] or L.removed or not hasattr(svc, "remove"):
+                        skipped[0] += 1
+                        continue
+                    L.removed = True
+                    Watch(svc.remove())
+                    tor.pipe.pump()
+                elif t == "drain":
+                    guard = 0
+                    while unanswered and guard < 10:
+                        guard += 1
+                        answer("ok")
+                        if not scan_wire() or not compare(step_no, ["drain"]):
+                            ok = False
+                            break
+                    if not ok:
+                        break
+                else:
+                    skipped[0] += 1
+                    continue
+                if not scan_wire() or not compare(step_no, step):
+                    ok = False
+                    break
+            # ---- verdicts at the end
+            if ok:
+                bad = [(p, i) for (p, i) in r.listen_log if not (isinstance(i, str) and LOOPBACK(i))]
+                if bad:
+                    res.bad("listener-not-loopback", "listenTCP calls %r: %r are not on a loopback interface" % (r.listen_log, bad))
+                for L in listens:
+                    if L.watch is None or not ok:
+                        continue
+                    if L.watch.pending:
+                        if L.asked is None:
+                            res.bad("creating-command-not-sent", "%s: listen() is pending, every command Tor received has been "
+                                    "answered, but Tor was never asked to forward to its listener %r (ADD_ONION %r SETCONF %r)" % (
+                                        describe(L), L.local, tor.add_onion_lines, tor.setconf_lines))
+                            ok = False
+                        continue
+                    if L.watch.failed:
+                        if L.local is not None and L.local in open_now():
+                            res.bad("listener-leak-on-failure", "%s: listen() -> %r but %r is still open" % (
+                                describe(L), L.watch.outcome()[:2], L.local))
+                            ok = False
+                        elif L.code is not None and not _error_matches_code(L.watch.failure.value, L.code):
+                            res.bad("wrong-error", "%s: Tor answered %d, listen() failed with %r" % (
+                                describe(L), L.code, L.watch.failure.value))
+                            ok = False
+                        continue
+                    port = L.watch.result
+                    addr = port.getHost() if hasattr(port, "getHost") else None
+                    if getattr(addr, "onion_uri", None) != L.expected_uri:
+                        res.bad("wrong-onion-hostname", "%s: getHost().onion_uri is %r, Tor assigned %r" % (
+                            describe(L), getattr(addr, "onion_uri", None), L.expected_uri))
+                        ok = False
+                    elif getattr(addr, "onion_port", None) != L.spec["port"]:
+                        res.bad("wrong-onion-port", "%s: getHost().onion_port is %r" % (describe(L), getattr(addr, "onion_port", None)))
+                        ok = False
+                    elif not L.stopped:
+                        if L.local not in open_now():
+                            res.bad("listener-closed-before-resolution", "%s: resolved but %r is not open (%r)" % (
+                                describe(L), L.local, open_now()))
+                            ok = False
+                        else:
+                            port.stopListening()
+                            if L.local in open_now():
+                                res.bad("stoplistening-leaves-listener-open", "%s: %r still open" % (describe(L), L.local))
+                                ok = False
+            r.fire_triggers("shutdown")
+    finally:
+        shutil.rmtree(tmp, ignore_errors=True)
+    for _ in range(skipped[0]):
+        res.excluded.append("impossible-step-skipped")
+    # ---- classification
+    started = [L for L in listens if L.watch is not None]
+    outcomes = sorted("pending" if L.watch.pending else ("failed" if L.watch.failed else "resolved") for L in started)
+    res.label("multi:route:" + route, "multi:listens:%d" % len(started), "multi:outcomes:" + "+".join(outcomes))
+    kinds = sorted(set("fs" if L.spec["fs"] else "eph" for L in started))
+    res.label("multi:kinds:" + "+".join(kinds))
+    keys = [(L.spec["version"], L.spec["key"]) for L in started if not L.spec["fs"] and L.spec.get("key") is not None]
+    if len(keys) != len(set(keys)):
+        res.label("multi:same-key-twice")
+    if any(L.code == 550 for L in started):
+        res.label("multi:collision-550")
+    if any(L.removed for L in started):
+        res.label("multi:service-removed")
+    order = [s[0] for s in case["script"]]
+    first_reply = order.index("reply") if "reply" in order else len(order)
+    if order[:first_reply].count("listen") >= 2:
+        res.label("multi:overlapping-listens")
+    res.nontrivial = len(started) >= 2 and any(o != "pending" for o in outcomes)
+    return res
+
+
+def _multi_eps(kind, k):
+    """endpoint sets for the canonical scripts"""
+    v = 3 if k % 2 else 2
+    if kind == "same-key":
+        return [{"fs": False, "key": k % 3, "version": v, "port": 80, "dir": 0},
+                {"fs": False, "key": k % 3, "version": v, "port": 80 + k % 2, "dir": 0},
+                {"fs": False, "key": (k + 1) % 3, "version": v, "port": 443, "dir": 0}]
+    if kind == "different-keys":
+        return [{"fs": False, "key": k % 3, "version": v, "port": 80, "dir": 0},
+                {"fs": False, "key": (k + 1) % 3, "version": v, "port": 81, "dir": 0},
+                {"fs": False, "key": None, "version": v, "port": 82, "dir": 0}]
+    if kind == "no-keys":
+        return [{"fs": False, "key": None, "version": v, "port": 80, "dir": 0},
+                {"fs": False, "key": None, "version": 5 - v, "port": 80, "dir": 0},
+                {"fs": False, "key": None, "version": v, "port": 8080, "dir": 0}]
+    if kind == "filesystem":
+        return [{"fs": True, "key": None, "version": v, "port": 80, "dir": 0},
+                {"fs": True, "key": None, "version": v, "port": 81, "dir": 1},
+                {"fs": True, "key": None, "version": 5 - v, "port": 80, "dir": 2}]
+    return [{"fs": True, "key": None, "version": v, "port": 80, "dir": 0},
+            {"fs": False, "key": k % 3, "version": v, "port": 80, "dir": 0},
+            {"fs": False, "key": k % 3, "version": v, "port": 81, "dir": 0}]
+
+
+_UP_OK = lambda i: [["up", i, 0], ["up", i, 1], ["fail", i, 0], ["ok", i, 1]]       # noqa: E731
+_UP_FAIL = lambda i: [["up", i, 0], ["fail", i, 0]]                                  # noqa: E731
+MULTI_SCRIPTS = {
+    "sequential-after-stop-and-remove": [["listen", 0], ["reply", "ok"]] + _UP_OK(0) + [["stop", 0], ["remove", 0],
+                                        ["listen", 1], ["reply", "ok"]] + _UP_OK(1),
+    "sequential-first-still-up": [["listen", 0], ["reply", "ok"]] + _UP_OK(0) + [["listen", 1], ["reply", "ok"]] + _UP_OK(1),
+    "sequential-after-stop-only": [["listen", 0], ["reply", "ok"]] + _UP_OK(0) + [["stop", 0], ["listen", 1], ["reply", "ok"]] + _UP_OK(1),
+    "first-rejected": [["listen", 0], ["reply", "reject"], ["listen", 1], ["reply", "ok"]] + _UP_OK(1),
+    "first-uploads-failed": [["listen", 0], ["reply", "ok"]] + _UP_FAIL(0) + [["listen", 1], ["reply", "ok"]] + _UP_OK(1),
+    "first-uploads-failed-then-removed-by-hand": [["listen", 0], ["reply", "ok"]] + _UP_FAIL(0) + [["listen", 1], ["reply", "ok"]] + _UP_OK(1),
+    "overlapping": [["listen", 0], ["listen", 1], ["reply", "ok"], ["reply", "ok"]] + _UP_OK(1) + _UP_OK(0),
+    "overlapping-first-rejected": [["listen", 0], ["listen", 1], ["reply", "reject"], ["reply", "ok"]] + _UP_OK(1),
+    "overlapping-second-rejected": [["listen", 0], ["listen", 1], ["reply", "ok"], ["reply", "reject"]] + _UP_OK(0),
+    "overlapping-events-before-second-reply": [["listen", 0], ["listen", 1], ["reply", "ok"]] + _UP_OK(0) + [["reply", "ok"]] + _UP_OK(1),
+    "three-in-a-row": [["listen", 0], ["reply", "ok"]] + _UP_OK(0) + [["stop", 0], ["remove", 0], ["listen", 1], ["reply", "ok"]]
+                      + _UP_FAIL(1) + [["listen", 2], ["reply", "ok"]] + _UP_OK(2),
+    "three-overlapping": [["listen", 0], ["listen", 1], ["listen", 2], ["reply", "ok"], ["reply", "ok"], ["reply", "ok"]]
+                         + _UP_OK(2) + _UP_OK(0) + _UP_FAIL(1),
+    "second-never-answered": [["listen", 0], ["reply", "ok"]] + _UP_OK(0) + [["listen", 1]],
+}
+
+
+def multi_matrix():
+    k = 0
+    for kind in ("same-key", "different-keys", "no-keys", "filesystem", "mixed"):
+        for name in sorted(MULTI_SCRIPTS):
+            for route in ("ctor", "tor"):
+                for variant in (0, 1):
+                    k += 1
+                    yield {"route": route, "first_port": [40001, 1024, 50000][k % 3], "eps": _multi_eps(kind, k + variant),
+                           "script": MULTI_SCRIPTS[name]}
+
+
+@st.composite
+def multi_cases(draw):
+    n = draw(st.integers(2, 3))
+    family = draw(st.sampled_from(["eph", "eph", "fs", "mixed"]))
+    version = draw(st.sampled_from([2, 3]))
+    eps = []
+    for i in range(n):
+        fs = family == "fs" or (family == "mixed" and draw(st.booleans()))
+        eps.append({"fs": fs, "key": None if fs else draw(st.sampled_from([None, 0, 0, 1])),
+                    "version": version if draw(st.integers(0, 3)) else 5 - version,
+                    "port": draw(st.sampled_from([80, 80, 443, 8080])), "dir": i})
+    steps = st.one_of(
+        st.tuples(st.just("listen"), st.integers(0, n - 1)).map(list),
+        st.tuples(st.just("reply"), st.sampled_from(["ok", "ok", "ok", "reject"])).map(list),
+        st.tuples(st.sampled_from(["up", "up", "ok", "ok", "fail"]), st.integers(0, n - 1), st.integers(0, 1)).map(list),
+        st.tuples(st.sampled_from(["stop", "remove"]), st.integers(0, n - 1)).map(list),
+    )
+    body = draw(st.lists(steps, min_size=3, max_size=22))
+    body.insert(draw(st.integers(0, len(body))), ["listen", 1])          # at least two listens in every history
+    script = [["listen", 0]] + body
+    return {"route": draw(st.sampled_from(["ctor", "tor"])), "first_port": draw(st.sampled_from([1024, 40001, 65000])),
+            "eps": eps, "script": script}
+
+
+DRIVERS = {"listen": drive_listen, "refuse": drive_refuse, "multi": drive_multi}
 
 MANIFEST = {
     "text": "Fault enumeration over TCPHiddenServiceEndpoint.listen(): the full product of endpoint configurations "
@@ -1349,7 +1832,8 @@ MANIFEST = {
             "public port to exactly the open listener; listen() pending until the C15 completion model decides after the "
             "command's reply, then fires once with a port whose getHost() reports the assigned hostname and the public "
             "port and whose stopListening() empties the registry - also after a startListening() in between; every fault fails listen() with that error and leaves "
-            "no listener; documented-invalid option combinations raise ValueError before anything is started. "
+            "no listener; documented-invalid option combinations raise ValueError before anything is started. Histories of "
+            "several listen() calls on one config (driver 'multi') apply the same per-listen oracle to each of them. "
             "Finds counterexamples; does not prove absence.",
     "note": "Trusted: vlib/onionref.py (ADD_ONION decoder, HS_DESC renderers, UploadModel, scripted Tor), "
             "vlib/fakereactor.py, vlib/listenreactor.py, vlib/wire.py. listen() through global_tor/private_tor (which launch a Tor via a "
@@ -1361,16 +1845,19 @@ MANIFEST = {
 
 def run(ctx):
     ctx.enumerate("refuse", refuse_cases(), name="invalid-combinations")
+    ctx.enumerate("multi", multi_matrix(), name="several-listens-one-config-matrix")
     if ctx.quick():
         ctx.enumerate("listen", itertools.islice(fault_matrix(), 0, None, 3), name="config-x-fault-matrix-third",
                       exhaustive=False)
         ctx.enumerate("listen", itertools.islice(history_cases(), 0, None, 29), name="histories-x-reply-position-sample",
                       exhaustive=False)
         ctx.search("listen", cases(), quick=1200)
+        ctx.search("multi", multi_cases(), quick=500, name="several-listens-one-config")
     else:
         ctx.enumerate("listen", fault_matrix(), name="config-x-fault-matrix")
         ctx.enumerate("listen", history_cases(), name="own<=2+foreign1-histories-x-reply-position")
         ctx.search("listen", cases(), quick=1200, thorough=15000)
+        ctx.search("multi", multi_cases(), quick=500, thorough=5000, name="several-listens-one-config")
 
 
 # NOTE: written against the tree with the two C17 fixes applied (/repo since 2878e4a, 0bdd3be).
@@ -1467,6 +1954,26 @@ MUTANTS = [
      "        elif subtype == 'FAILED':\n            # (like UPLOADED: only for an upload we saw starting)\n            if args[3] in attempted_uploads and hostname_matches('{}.onion'.format(args[1])):",
      "        elif subtype == 'FAILED':\n            # (like UPLOADED: only for an upload we saw starting)\n            if not [a for a in args[4:] if a.startswith('REASON=')]:\n"
      "                return\n            if args[3] in attempted_uploads and hostname_matches('{}.onion'.format(args[1])):"),
+    ("same-key-service-in-config-reused", _EP,
+     "            already = self.hiddenservice is not None\n",
+     "            already = self.hiddenservice is not None\n"
+     "            if not already and self.private_key is not None:\n"
+     "                for hs in self._config.EphemeralOnionServices:\n"
+     "                    if hs.private_key == self.private_key:\n"
+     "                        self.hiddenservice = hs\n"
+     "                        already = True\n"),
+    ("any-ephemeral-service-in-config-reused", _EP,
+     "            already = self.hiddenservice is not None\n",
+     "            if self.hiddenservice is None and self._config.EphemeralOnionServices:\n"
+     "                self.hiddenservice = self._config.EphemeralOnionServices[-1]\n"
+     "            already = self.hiddenservice is not None\n"),
+    ("save-skipped-while-another-is-in-flight", "txtorcon/torconfig.py",
+     "        if not self.needs_save():\n            return defer.succeed(self)\n",
+     "        if not self.needs_save() or self._saves_in_flight:\n            return defer.succeed(self)\n"),
+    ("collision-reported-as-success", "txtorcon/onion.py",
+     "    try:\n        yield _issue_add_onion(config, onion, version, auth)\n    except Exception:\n",
+     "    try:\n        yield _issue_add_onion(config, onion, version, auth)\n    except Exception as e:\n"
+     "        if '550' in str(e):\n            onion._hostname = 'collision.onion'\n            return\n"),
     ("single-hop-filesystem-accepted", _EP,
      "        if single_hop and not ephemeral:\n", "        if False:\n"),
     ("private-key-filesystem-accepted", _EP,
